@@ -1508,6 +1508,9 @@ impl Translator {
                 let SolvedType::Function(args, _) = self.get_ty(mono, func_node).unwrap() else {
                     unreachable!()
                 };
+                // a variant declared with several fields stores them as one struct, whatever number of them
+                // occupies a slot (void fields do not): patterns take the payload apart by the declared fields
+                let nfields = args.len();
                 for arg_ty in args {
                     match arg_ty {
                         SolvedType::Void => {}
@@ -1518,11 +1521,9 @@ impl Translator {
                         }
                     }
                 }
-                if nargs > 1 {
+                if nfields > 1 {
                     self.emit(st, Instr::ConstructStruct(nargs));
-                }
-
-                if nargs == 0 {
+                } else if nargs == 0 {
                     self.emit(st, Instr::PushNil(1)); // TODO: optimize this away
                 }
 
